@@ -95,11 +95,12 @@ class RESOLVE_FORWARD_TYPE:
     and any non-reference type are returned unchanged and reported as not resolved"""
     cases = {"evaluated-ref": dict(t=Rec("ForwardRef", __forward_evaluated__=TRUE)),
              "unevaluated-ref": dict(t=Rec("ForwardRef", __forward_evaluated__=FALSE)),
-             "plain-class": dict(t=Cls(name="t"))}
-    returns_by_case = {"evaluated-ref": {"value_and_true": "result[0] is t.__forward_value__ and result[1] is True"},
+             "plain-class": dict(t=Cls(name="t")), "none": dict(t=NONE)}
+    returns_by_case = {"none": {"same_and_false": "result[0] is None and result[1] is False"},"evaluated-ref": {"value_and_true": "result[0] is t.__forward_value__ and result[1] is True"},
                        "unevaluated-ref": {"same_and_false": "result[0] is t and result[1] is False"},
                        "plain-class": {"same_and_false": "result[0] is t and result[1] is False"}}
     only_raises = []
+    result = Tup(OBJ, BOOL)
 
     @staticmethod
     def setup(ex, frame):
@@ -110,3 +111,89 @@ class RESOLVE_FORWARD_TYPE:
             lt = ex.world.repo_class(R, "LogicalType", ex)
             ex.assume(z3.Not(sym.sub(sym.ty(t.t), lt.t)))
             ex.assume(z3.Not(sym.sub(sym.ty(t.t), ex.world.classes.of_py(typing.ForwardRef).t)))
+
+
+# ------------------------------------------------------------------------------------ BaseParser.resolve_forward_refs (R3, bounded)
+
+B_ = "utype/parser/base.py"
+
+
+@contract("utype/utils/compat.py", "evaluate_forward_ref", props=["C17"])
+class EVALUATE_FORWARD_REF:
+    """typing's evaluator: either the reference becomes evaluated (value set), or an exception (NameError for
+    a name that is not defined yet, ...) and the reference is left as it was"""
+    cases = {"any": dict(ref=Rec("ForwardRef"), globalns=OBJ, localns=OBJ)}
+    result = OBJ
+    returns = {"evaluated": "ref.__forward_evaluated__"}
+    raises = {"Exception": {"reference_untouched": "ref.__forward_evaluated__ == old(ref.__forward_evaluated__)"}}
+    only_raises = ["Exception"]
+    modifies = ["ref"]
+    trusted = "typing._eval_type: external"
+
+
+@contract("utype/parser/field.py", "ParserField.resolve_forward_refs", props=["C17"])
+class FIELD_RESOLVE:
+    cases = {"any": dict(self=Rec("ParserField"))}
+    only_raises = []
+    trusted = "interface: re-resolves the field's own types (Rule / LogicalType resolve_forward_refs): not verified here"
+
+
+class _RefParserDesc(Desc):
+    name = "parser with one pending reference 'B'"
+
+    def fresh(self, ex, pname):
+        m = ex.world.models["RefParser"]
+        rec = m.fresh(ex, pname)
+        ref = ex.world.models["ForwardRef"].fresh(ex, pname + "_refB", __forward_evaluated__=FALSE)
+        ref.origin = "param:%s.forward_refs.B" % pname
+        d = VDict()
+        d.items["B"] = (z3.BoolVal(True), VTup([ref, VObj(z3.Const(pname + "_constraintsB", V))]))
+        d.origin = "param:%s.forward_refs" % pname
+        rec.fields["forward_refs"] = d
+        rec.fields["fields"] = VDict()
+        rec.pending_ref = ref
+        return rec
+
+
+def _install3(world):
+    world.models["RefParser"] = RecordModel(world, B_, "BaseParser",
+                                            dict(forward_refs=NONE, globals=OBJ, rule_cls=OBJ_NN, is_local=FALSE, fields=NONE,
+                                                 addition_type=NONE))
+    world.ext_table["utype.utils.compat.get_origin"] = VFunc("get_origin", lambda ex, a, k: VObj(ex.fresh("origin", V)))
+    # defined inside a try: block of compat.py, so not a top-level name of the module index
+    world.ext_table["utype.utils.compat.evaluate_forward_ref"] = \
+        lambda ex: world.repo_function("utype/utils/compat.py", "evaluate_forward_ref", ex)
+
+
+_C.INSTALLERS.append(_install3)
+
+
+@specfn("pending")
+def _pending(ex, fr, parser):
+    return parser.pending_ref
+
+
+@specfn("still_registered")
+def _still_registered(ex, fr, parser, key):
+    e = parser.fields["forward_refs"].items.get(key.const())
+    return VBool(e[0] if e is not None else False)
+
+
+@contract(B_, "BaseParser.resolve_forward_refs", props=["C17"])
+class RESOLVE_FORWARD_REFS:
+    """R3 (bounded: one pending reference): a reference that cannot be evaluated YET (its class is not
+    defined at this call) stays registered, so a later call can resolve it; one that evaluates is removed
+    and reported.  This is what makes the definition / first-use order irrelevant."""
+    cases = {"one-pending": dict(self=_RefParserDesc(), local_vars=NONE, ignore_errors=TRUE)}
+    returns = {"unresolved_stays_registered": "implies(not pending(self).__forward_evaluated__, still_registered(self, 'B'))",
+               "reported_only_if_resolved": "implies(result, pending(self).__forward_evaluated__ or self.is_local)",
+               "resolved_is_removed": "implies(result, not still_registered(self, 'B'))"}
+    only_raises = []
+    modifies = ["self"]
+    assumes = ["BOUNDED: exactly one pending reference, no fields, a module-level class (is_local False); parse_annotation / annotate are external (any result or exception)"]
+
+    @staticmethod
+    def setup(ex, frame):
+        rc = frame.env["self"].fields["rule_cls"]
+        for nm in ("parse_annotation", "annotate"):
+            ex.assume(sym.hasattr_f(sym.ty(rc.t), z3.StringVal(nm)))
